@@ -5,7 +5,7 @@ step (`putLicense`), the loop.
 import ReuseVerif.Model.Download
 import ReuseVerif.Spec.Download
 
-namespace Model
+namespace Model.Download
 open Py
 
 theorem Fs.get_set (fs : Fs) (p q : Path) (n : Node) :
@@ -604,8 +604,8 @@ theorem done_inv {fetch : Text → Option Text} {e : Env} {missing : List Text} 
     cases h
     exact ⟨by simpa using hu, rfl, rfl⟩
 
-theorem mem_targets {missing : List Text} {a : Args} {id : Text} : id ∈ targets missing a ↔ ∃ i ∈ Spec.requested missing a, stripPlus i = id := by
-  unfold targets Spec.requested
+theorem mem_targets {missing : List Text} {a : Args} {id : Text} : id ∈ targets missing a ↔ ∃ i ∈ Spec.Download.requested missing a, stripPlus i = id := by
+  unfold targets Spec.Download.requested
   rw [mem_dedup, List.mem_map]
 
-end Model
+end Model.Download
